@@ -523,19 +523,32 @@ static ares_status_t ares_append_requeue(ares_array_t **requeue,
                                          ares_server_t *server)
 {
   ares_requeue_t entry;
+  ares_status_t  status;
 
   if (*requeue == NULL) {
     *requeue = ares_array_create(sizeof(ares_requeue_t), NULL);
     if (*requeue == NULL) {
-      return ARES_ENOMEM;
+      status = ARES_ENOMEM;
+      goto fail;
     }
   }
 
-  ares_query_remove_from_conn(query);
-
   entry.qid    = query->qid;
   entry.server = server;
-  return ares_array_insertdata_last(*requeue, &entry);
+  status       = ares_array_insertdata_last(*requeue, &entry);
+  if (status != ARES_SUCCESS) {
+    goto fail;
+  }
+
+  ares_query_remove_from_conn(query);
+  return ARES_SUCCESS;
+
+fail:
+  /* The query can't be tracked for a resend.  It may already be off its
+   * connection's list (yet still point at the connection), so it can't be left
+   * to the connection's error handling or to its timeout either: fail it. */
+  end_query(query->channel, NULL, query, status, NULL);
+  return status;
 }
 
 static ares_status_t read_answers(ares_conn_t *conn, const ares_timeval_t *now)
